@@ -8,10 +8,10 @@ import time
 from pathlib import Path
 
 VERIF = Path("/verif")
-REPO = Path("/repo")
+REPO = Path(os.environ.get("PGVERIF_REPO", "/repo"))   # the override is a development aid (seeded changes in scratch worktrees)
 SPEC = VERIF / "spec"
-EVIDENCE = VERIF / "evidence"
-REPLAYS = VERIF / "replays"
+EVIDENCE = Path(os.environ.get("PGVERIF_EVIDENCE", VERIF / "evidence"))
+REPLAYS = Path(os.environ.get("PGVERIF_REPLAYS", VERIF / "replays"))
 KNOWN = VERIF / "KNOWN_FINDINGS.txt"
 
 _scratch = None
